@@ -118,6 +118,37 @@ def run(facts, tier, ctx):
                 ok = any(o[0] in ("param", "local") and re.search(r"\.%s\b" % re.escape(field), o[2]) for o in ors)
                 if ok:
                     hit = (b, bi)
+        if hit is None:
+            # `verify_field("name", &self.field)?`: a crate-local generic helper that verifies its parameter on every one of
+            # its own Ok paths, called with the field (the argument type fixes the child type)
+            from .lib_mpt import mpt as _mpt
+            from .lib_fill import ok_returns as _okr
+            for b in [vb] + facts.closures_of(vb):
+                for bi, t in b.calls():
+                    fn = t.get("fn") or {}
+                    cb = facts.bodies.get(fn.get("res") or "") or facts.bodies.get(fn.get("def") or "")
+                    if cb is None or not fn.get("local") or cb.kind != "Fn" or fn.get("name") == "verify":
+                        continue
+                    for ci, ct in cb.calls():
+                        cfn = ct.get("fn") or {}
+                        if cfn.get("name") != "verify" or cfn.get("trait") != "error::Verify" or not ct.get("args"):
+                            continue
+                        ks = set(o[1] for o in cb.origins(ct["args"][0]) if o[0] == "param")
+                        if len(ks) != 1 or not all(o[0] == "param" for o in cb.origins(ct["args"][0])):
+                            continue
+                        k = ks.pop()
+                        if not (1 <= k <= len(t["args"])):
+                            continue
+                        coks = _okr(cb) or list(cb.returns())
+                        okh, _p = _mpt(cb, [ci], 0, coks)
+                        if not okh:
+                            continue
+                        aty = (t.get("argtys") or [""] * k)[k - 1]
+                        if re.sub(r"^&(mut )?", "", aty or "") != child:
+                            continue
+                        ors = b.origins(t["args"][k - 1])
+                        if any(o[0] in ("param", "local") and re.search(r"\.%s\b" % re.escape(field), o[2]) for o in ors):
+                            hit = (b, bi)
         where = vb.loc()
         if hit is None:
             chain.fail(Finding("CHAIN", vb.id, "missing:%s.%s->%s" % (p, field, child), 0, where,
